@@ -111,7 +111,8 @@ class Plugin(abc.ABC):
         attr = getattr(self.config, f'plugin_{self.name}'.upper(), 'True')
         if attr is None:
             return True
-        return str2bool(attr)
+        # the switch can be given in code as a bool (or number) as well as text
+        return str2bool(str(attr))
 
     def shutdown(self):
         """Clean up and shutdown the plugin."""
